@@ -130,6 +130,8 @@ def interp_aperture(ap_tab, vals, a):
     if a >= ap_tab[-1]:
         return np.asarray(vals)[..., -1]
     if a < ap_tab[0]:
+        if a >= ap_tab[0] * (1 - 1e-12):      # on the first node up to the round-off of theta*d: the first tabulated value
+            return np.asarray(vals)[..., 0]
         raise ValueError('below table')
     i = bisect.bisect_right(ap_tab, a) - 1
     i = min(max(i, 0), len(ap_tab) - 2)
